@@ -58,8 +58,22 @@ func (h *Hist) takeSnap(when string, op Op) {
 		h.Failf("%s: first read of a fresh %s snapshot: %v", when, kind, rerr)
 	}
 	_ = want
-	h.snaps[op.ID] = &snapHandle{snap: snap, want: first, kind: kind, fileAtOpen: h.currentDataFile()}
+	nsrc := 0
+	for _, l := range [][]int{h.top, h.mid, h.base, h.clean} {
+		if len(l) > 0 {
+			nsrc += len(l)
+		}
+	}
+	if h.Persisted > 0 {
+		nsrc++
+	}
+	h.snaps[op.ID] = &snapHandle{snap: snap, want: first, kind: kind, fileAtOpen: h.currentDataFile(), multi: nsrc >= 2}
 	h.Label("snap:" + kind)
+	if nsrc >= 2 {
+		h.Label("snap-multi-source")
+	} else {
+		h.Label("snap-single-source")
+	}
 }
 
 func (h *Hist) takeStoreSnap(when string, op Op) {
@@ -78,7 +92,7 @@ func (h *Hist) takeStoreSnap(when string, op Op) {
 		snap.Close()
 		h.Failf("%s: first read of a fresh store snapshot: %v", when, rerr)
 	}
-	h.snaps[op.ID] = &snapHandle{snap: snap, want: want, kind: "store", fileAtOpen: h.currentDataFile()}
+	h.snaps[op.ID] = &snapHandle{snap: snap, want: want, kind: "store", fileAtOpen: h.currentDataFile(), multi: h.DataRounds >= 2}
 	h.Label("snap:store")
 }
 
@@ -146,7 +160,14 @@ func (h *Hist) openIter(when string, op Op) {
 	if err != nil || it == nil {
 		h.Failf("%s: StartIterator: %v (nil=%v)", when, err, it == nil)
 	}
-	ih := &iterHandle{it: it, mi: NewModelIter(sh.want, s, e), snap: op.Snap}
+	ih := &iterHandle{it: it, mi: NewModelIter(sh.want, s, e), snap: op.Snap, multi: sh.multi}
+	if len(s) > 0 && len(e) > 0 && s[0] == e[0] {
+		h.Label("bounds-share-prefix")
+		ih.hard = true
+	}
+	if s != nil && e != nil && bytes.Compare(s, e) >= 0 {
+		h.Label("bounds-empty-or-inverted")
+	}
 	h.iters[op.ID] = ih
 	h.compareIter(when, ih, nil)
 	h.Label("iter-open")
@@ -206,6 +227,18 @@ func (h *Hist) iterSeek(when string, op Op) {
 	k := op.Key
 	if k == nil {
 		k = []byte{}
+	}
+	ck, _, wasDone := ih.mi.Current()
+	if wasDone {
+		h.Label("seek-after-exhaustion")
+		ih.hard = true
+	} else if bytes.Compare(k, ck) < 0 {
+		h.Label("seek-backward")
+		ih.hard = true
+	}
+	if ih.hard && ih.multi {
+		h.Nontriv = true
+		h.Label("c09-nontrivial")
 	}
 	done := ih.mi.SeekTo(k)
 	err := ih.it.SeekTo(k)
